@@ -21,7 +21,7 @@ from typing import Any, Callable
 from .model import Func, Model
 from .setalg import SetAlg, TooManyAtoms, f_and, f_not, satisfy, show_formula, show_row
 from .symeval import Evaluator, Path
-from .terms import Term, alpha_normalise, has_unknown, is_term, mapterm, show, subst
+from .terms import Term, alpha_normalise, has_unknown, is_term, mapterm, show, subst, subterms
 
 
 def norm_formula(f):
@@ -166,8 +166,32 @@ def _items_gen(pat: Term, it: Term):
                 return all(bind(q_, ("index", val, ("const", j))) for j, q_ in enumerate(p_[1]))
             return False
 
+        if S[0] == "call" and S[1] == "zip" and len(S[2]) >= 2 and x[0] == "tuplelit" and len(x[1]) == len(S[2]) \
+                and all(k_ == "strict" for k_, _v in S[3]):
+            # for i, (a, b) in enumerate(zip(A, B)): position i of A and of B (as long as the shorter; with strict=True both have that length)
+            if all(bind(q_, ("index", A_, i)) for q_, A_ in zip(x[1], S[2])):
+                return i, ("call", "range", (("len", S[2][0]),), ()), m
+            m.clear()
         if S[0] in ("var", "attr", "index", "comp", "call", "meth", "listlit", "tuplelit") and bind(x, ("index", S, i)):
             return i, ("call", "range", (("len", S),), ()), m
+    if it[0] == "call" and it[1] == "zip" and len(it[2]) >= 2 and pat[0] == "tuplelit" and len(pat[1]) == len(it[2]) and all(k_ == "strict" for k_, _v in it[3]) \
+            and all(A_[0] in ("var", "attr", "index") for A_ in it[2]):
+        # for a, b in zip(A, B): a = A[i], b = B[i] at every position i (of the shorter; with strict=True both have that length)
+        pv = _pat_vars(pat)
+        if pv:
+            i = ("var", "%pos_of_" + str(pv[0][1]).lstrip("%"))
+            m2: dict = {}
+
+            def bind2(p_, val):
+                if p_[0] == "var":
+                    m2[p_] = val
+                    return True
+                if p_[0] == "tuplelit":
+                    return all(bind2(q_, ("index", val, ("const", j))) for j, q_ in enumerate(p_[1]))
+                return False
+
+            if all(bind2(q_, ("index", A_, i)) for q_, A_ in zip(pat[1], it[2])):
+                return i, ("call", "range", (("len", it[2][0]),), ()), m2
     if it[0] == "meth" and it[2] == "items" and not it[3] and not it[4] and pat[0] == "tuplelit" and len(pat[1]) == 2 \
             and pat[1][0][0] == "var" and pat[1][1][0] == "var":
         k, v = pat[1]
@@ -380,6 +404,54 @@ def lam_refs(paths: list, model: Model, mk_ev) -> list:
     for p in paths:
         out.append(replace(p, conds=tuple(mapterm(c, fn) for c in p.conds), value=mapterm(p.value, fn) if p.kind == "return" else p.value))
     return out
+
+
+_DELEGATIONS: dict = {}
+
+
+def delegating_properties(model: Model) -> dict:
+    """(field, attribute) -> property name, for every property of the form `return self.<field>.<attribute>` whose <field> is declared only
+    by that class and its subclasses: an object that has the field IS of that class, so `x.<field>.<attribute>` and `x.<property>` are the
+    same read (e.g. Probability.children is self.distribution.children)."""
+    key = id(model)
+    if key in _DELEGATIONS:
+        return _DELEGATIONS[key]
+    import ast as _ast
+    out: dict = {}
+    owners: dict = {}
+    for c in model.classes.values():
+        for fld in c.fields:
+            owners.setdefault(fld, []).append(c)
+    for c in model.classes.values():
+        for name, m in c.methods.items():
+            if not m.is_property:
+                continue
+            body = [st for st in m.node.body if not (isinstance(st, _ast.Expr) and isinstance(st.value, _ast.Constant))]
+            if len(body) != 1 or not isinstance(body[0], _ast.Return):
+                continue
+            r = body[0].value
+            if isinstance(r, _ast.Attribute) and isinstance(r.value, _ast.Attribute) and isinstance(r.value.value, _ast.Name) and m.params and r.value.value.id == m.params[0]:
+                fld, att = r.value.attr, r.attr
+                if all(o.is_subclass_of(c) for o in owners.get(fld, [])) and owners.get(fld):
+                    if out.get((fld, att), name) != name:
+                        out[(fld, att)] = None  # two different properties delegate the same read: leave it alone
+                    else:
+                        out[(fld, att)] = name
+    _DELEGATIONS[key] = {k: v for k, v in out.items() if v}
+    return _DELEGATIONS[key]
+
+
+def contract_delegations(paths: list, model: Model) -> list:
+    from dataclasses import replace
+    table = delegating_properties(model)
+    if not table:
+        return paths
+
+    def fn(s_):
+        if s_[0] == "attr" and len(s_) == 3 and is_term(s_[1]) and s_[1][0] == "attr" and len(s_[1]) == 3 and (s_[1][2], s_[2]) in table:
+            return ("attr", s_[1][1], table[(s_[1][2], s_[2])])
+        return None
+    return [replace(p, conds=tuple(mapterm(c, fn) for c in p.conds), value=mapterm(p.value, fn) if p.kind == "return" else p.value) for p in paths]
 
 
 def normalise_items(paths: list) -> list:
@@ -789,6 +861,102 @@ def drop_implied_filters(t: Any, foralls: tuple, sa: SetAlg) -> Any:
     return walk(t)
 
 
+def simplify_under_guard(t: Any, guard, sa: SetAlg) -> Any:
+    """On the inputs of THIS pair of paths (the joint guard) a loop-invariant filter of a comprehension is either true -- dropped -- or false --
+    the comprehension is empty; `A | {}` is A; a conditional whose test the guard decides is the chosen branch.  (A loop with `if c: ... else: ...`
+    on an invariant c is read by the evaluator as two filtered comprehensions; under the guard only one of them is there.)"""
+    if not isinstance(t, tuple):
+        return t
+    from .terms import mapterm
+
+    def decided(c):
+        try:
+            F = norm_formula(sa.cond(c))
+            if satisfy(f_and(guard, f_not(F))) is None:
+                return True
+            if satisfy(f_and(guard, F)) is None:
+                return False
+        except Exception:  # noqa: BLE001
+            return None
+        return None
+
+    def empty_of(kind):
+        return {"dict": ("dictlit", ()), "set": ("setlit", ()), "list": ("listlit", ()), "gen": ("listlit", ())}.get(kind)
+
+    def is_empty(x):
+        return is_term(x) and x in (("dictlit", ()), ("setlit", ()), ("listlit", ()), ("tuplelit", ()), ("empty",))
+
+    def f(s_):
+        if s_[0] == "comp" and len(s_) == 4 and s_[1] in ("dict", "set", "list", "gen") and isinstance(s_[3], tuple):
+            bound = set()
+            for g_ in s_[3]:
+                bound |= {v for v in subterms(g_[0]) if v[0] == "var"}
+            new_gens, changed = [], False
+            for pat, it, conds in s_[3]:
+                kept = []
+                for c in conds:
+                    if any(v in bound for v in subterms(c) if v[0] == "var"):
+                        kept.append(c)
+                        continue
+                    d_ = decided(c)
+                    if d_ is True:
+                        changed = True
+                        continue
+                    if d_ is False:
+                        e_ = empty_of(s_[1])
+                        if e_ is not None:
+                            return e_
+                    kept.append(c)
+                new_gens.append((pat, it, tuple(kept)))
+            if changed:
+                return (s_[0], s_[1], s_[2], tuple(new_gens))
+            return None
+        if s_[0] == "accum" and len(s_) == 6 and isinstance(s_[4], tuple):
+            bound = set()
+            for g_ in s_[4]:
+                bound |= {v for v in subterms(g_[0]) if v[0] == "var"}
+            new_gens, changed = [], False
+            for pat, it, conds in s_[4]:
+                kept = []
+                for c in conds:
+                    if any(v in bound for v in subterms(c) if v[0] == "var"):
+                        kept.append(c)
+                        continue
+                    d_ = decided(c)
+                    if d_ is True:
+                        changed = True
+                        continue
+                    if d_ is False:
+                        return s_[2]  # no iteration gets past this test: the accumulator is left as it was
+                    kept.append(c)
+                new_gens.append((pat, it, tuple(kept)))
+            if changed:
+                return (s_[0], s_[1], s_[2], s_[3], tuple(new_gens), s_[5])
+            return None
+        if s_[0] == "op" and len(s_) == 4 and s_[1] == "|":
+            if is_empty(s_[3]):
+                return s_[2]
+            if is_empty(s_[2]):
+                return s_[3]
+        if s_[0] in ("union", "concat") and len(s_) >= 3:
+            rest = [x for x in s_[1:] if not is_empty(x)]
+            if len(rest) < len(s_) - 1:
+                if not rest:
+                    return s_[1]
+                return rest[0] if len(rest) == 1 else (s_[0],) + tuple(rest)
+        if s_[0] == "ite" and len(s_) == 4:
+            d_ = decided(s_[1])
+            if d_ is True:
+                return s_[2]
+            if d_ is False:
+                return s_[3]
+        return None
+    try:
+        return mapterm(t, f)
+    except Exception:  # noqa: BLE001
+        return t
+
+
 def guarded_equal(x: Any, y: Any, guard, sa: SetAlg, depth: int = 0, foralls: tuple = ()) -> bool:
     """Are the two (raw) values equal on every input that satisfies the joint guard?  Set-valued operands are compared by membership
     under the guard (a part that is empty on these inputs does not count); everything else must have the same canonical form."""
@@ -796,6 +964,10 @@ def guarded_equal(x: Any, y: Any, guard, sa: SetAlg, depth: int = 0, foralls: tu
         return True
     if not isinstance(x, tuple) or not isinstance(y, tuple) or depth > 40:
         return False
+    if depth == 0 and is_term(x) and is_term(y):
+        x2, y2 = simplify_under_guard(x, guard, sa), simplify_under_guard(y, guard, sa)
+        if (x2 != x or y2 != y) and guarded_equal(x2, y2, guard, sa, 1, foralls):
+            return True
     if is_term(x) and is_term(y):
         if sa.canon_top(x) == sa.canon_top(y):
             return True
@@ -1086,6 +1258,7 @@ def compare_with_reference(model: Model, impl_q: str, ref_q: str, types: dict[st
     from .symeval import resolve_ites
     pi, pr = lam_refs(pi, model, mk_ev), lam_refs(pr, model, mk_ev)
     pi, pr = normalise_items(pi), normalise_items(pr)
+    pi, pr = contract_delegations(pi, model), contract_delegations(pr, model)
     pi, pr = resolve_ites(pi), resolve_ites(pr)
     pi, pr = split_boolean_data(pi, ev_i), split_boolean_data(pr, ev_r)
     pi, pr = expand_quantifiers(pi, ev_i), expand_quantifiers(pr, ev_r)
@@ -1135,6 +1308,13 @@ def compare_with_reference(model: Model, impl_q: str, ref_q: str, types: dict[st
             if w is None:
                 continue
             fas = tuple(c for c in tuple(a.conds) + tuple(b.conds) if c[0] == "forall-not")
+            nones = {c[1]: ("const", None) for c in tuple(a.conds) + tuple(b.conds) if c[0] == "isnone" and len(c) == 2 and is_term(c[1]) and c[1][0] != "const"}
+            if nones and a.kind == b.kind == "return" and not a.unknown:
+                # on these inputs the tested value IS None: `f(event=x)` and `f(event=None)` are the same call
+                ra, rb = subst(a.raw, nones), subst(b.raw, nones)
+                if (ra != a.raw or rb != b.raw) and guarded_equal(ra, rb, joint_guard(a, b, sa), sa, foralls=fas):
+                    agreed.add(id(b))
+                    continue
             if a.kind == b.kind == "return" and not a.unknown and (guarded_equal(a.raw, b.raw, joint_guard(a, b, sa), sa, foralls=fas) or (
                     fas and guarded_equal(drop_implied_filters(a.raw, fas, sa), drop_implied_filters(b.raw, fas, sa), joint_guard(a, b, sa), sa, foralls=fas))):
                 agreed.add(id(b))
